@@ -188,6 +188,9 @@ def parse_rvalue(s):
 
 
 def _parse_rvalue(s):
+    if s.startswith("no_retag "):
+        # `no_retag copy <place>`: a copy of a reference without a retag; same value as the plain copy
+        s = s[9:]
     # cast:  <operand> as <type> (<Kind>)
     if s.startswith(("copy ", "move ", "const ")):
         m = re.match(r"^(.*) as (.+) \(([A-Za-z]+(?:\(.*\))?)\)$", s)
